@@ -89,10 +89,11 @@ let run_crew k multi wko tr op ss ts sid tid aid post =
                 else let (t', s') = cc_swap t s in (t', s', w)
     | _ -> failwith "op" in
   let none = (op = "none") in
+  let iscopy = String.length op >= 4 && String.sub op 0 4 = "copy" in
   let line1 = Printf.sprintf "ok T=%s S=%s tc=%s sc=%s mv=%d cp=%d"
       (if self || none then "-" else ids (mgr_of t1)) (ids (mgr_of s1))
       (if self || none then "[]" else show (il (items_of t1))) (show (il (items_of s1)))
-      (if has_event is_move w1 then 1 else 0) (if has_event is_copy w1 then 1 else 0) in
+      (if has_event is_move w1 && not iscopy then 1 else 0) (if has_event is_copy w1 then 1 else 0) in
   (* post operation on the source with a fresh F *)
   let useF = Stdlib.List.mem post ["swapf"; "fswap"; "massign"; "cassign"] in
   let (f, w2) = get (cc_new k (z aid) w1) in
@@ -143,10 +144,11 @@ let run_arr ic isvec tr op ss ts sid tid aid post =
                 else let ((t', s'), w') = get (arr_swap assign t s w) in (t', s', w')
     | _ -> failwith "op" in
   let none = (op = "none") in
+  let iscopy = String.length op >= 4 && String.sub op 0 4 = "copy" in
   let line1 = Printf.sprintf "ok T=%s S=%s tc=%s sc=%s mv=%d cp=%d"
       (if self || none then "-" else string_of_int (iz t1.amgr)) (string_of_int (iz s1.amgr))
       (if self || none then "[]" else show (il t1.aitems)) (show (il s1.aitems))
-      (if has_event is_move w1 then 1 else 0) (if has_event is_copy w1 then 1 else 0) in
+      (if has_event is_move w1 && not iscopy then 1 else 0) (if has_event is_copy w1 then 1 else 0) in
   let useF = Stdlib.List.mem post ["swapf"; "fswap"; "massign"; "cassign"] in
   let f = arr_new (z aid) in
   let (f, w2) = if useF then Stdlib.List.fold_left (fun (c, w) i -> arr_insert icn c (z (300000 + 3 * i)) w) (f, w1) [0; 1; 2; 3; 4] else (f, w1) in
